@@ -214,6 +214,36 @@ def damage(items, truth, rng, prob, budget_frac=0.06):
         t["removed"] = removed.get((t["chain"], t["resi"], t["icode"]), [])
 
 
+def backbone_damage(items, truth, rng, prob):
+    """Delete backbone atoms of a few residues (never CA): the carbonyl O, C and O, or N - as in real files with
+    poorly resolved termini / loop ends.  At most two residues, never two adjacent ones."""
+    if prob <= 0:
+        return
+    blocks = _blocks(items)
+    if len(blocks) != len(truth):
+        return
+    hit, dead = [], set()
+    for k, t in enumerate(truth):
+        if t["kind"] != "aa" or t.get("cyclic") or len(hit) >= 2 or (hit and k - hit[-1] < 2) or rng.random() >= prob:
+            continue
+        pattern = rng.choice([["O"], ["O"], ["C", "O"], ["N"], ["C"]])
+        names = {a["name"] for a in blocks[k][1]}
+        if not set(pattern) <= names:
+            continue
+        hit.append(k)
+        t.setdefault("removed", [])
+        t["removed"] = list(t["removed"]) + pattern
+        t["bb_removed"] = pattern
+        for a in blocks[k][1]:
+            # hydrogens riding on a deleted atom go with it
+            if a["name"] in pattern or (a["name"] in ("H", "H1", "H2", "H3") and "N" in pattern) or \
+                    (a["name"] == "OXT" and "C" in pattern):
+                dead.add(id(a))
+    if dead:
+        items[:] = [it for it in items if not (isinstance(it, dict) and id(it) in dead)]
+        pdbfmt.renumber(items)
+
+
 def frag(spec):
     rng = random.Random(spec["seed"])
     p = spec.get("p", {})
@@ -411,6 +441,9 @@ def materialise(spec):
     p = spec.get("p") or {}
     if p.get("gap_prob") and "items" in out and random.Random(spec["seed"] + 15).random() < p["gap_prob"]:
         apply_gap(out, random.Random(spec["seed"] + 16))
+    if p.get("bb_damage_prob") and "items" in out:
+        backbone_damage(out["items"], out["truth"], random.Random(spec["seed"] + 14), p["bb_damage_prob"])
+        out["text"] = pdbfmt.to_text(out["items"])
     if p.get("icode_prob") and random.Random(spec["seed"] + 17).random() < p["icode_prob"]:
         apply_icodes(out, random.Random(spec["seed"] + 18))
     r19 = random.Random(spec["seed"] + 19)
